@@ -191,10 +191,16 @@ pub fn check_grammar(case: &DocCase, st: &mut Stats) -> Result<(), String> {
         let nreg = regions.iter().copied().max().unwrap_or(0) + 1;
         let mut got: Vec<Vec<char>> = vec![vec![]; nreg];
         let mut exp: Vec<Vec<char>> = vec![vec![]; nreg];
+        #[allow(unused_assignments)]
         let mut last_reg = 0usize;
         for (list, dst) in [(&s, &mut got), (&v, &mut exp)] {
             for ch in list.iter() {
-                let reg = if *ch == COMBINING { last_reg } else { label_of(*ch).and_then(|l| regions.get(l).copied()).unwrap_or(0) };
+                if *ch == COMBINING {
+                    // a mark belongs to whatever precedes it on the line, which across side-by-side
+                    // cells need not be its own cell: marks are compared in the multiset only
+                    continue;
+                }
+                let reg = label_of(*ch).and_then(|l| regions.get(l).copied()).unwrap_or(0);
                 last_reg = reg;
                 dst[reg].push(*ch);
             }
@@ -346,8 +352,10 @@ pub fn check_bytes(case: &DocCase, html: Vec<u8>, st: &mut Stats, exclude_known:
             ));
         }
     } else {
-        let mut a = s.clone();
-        let mut b = v.clone();
+        // a cell holding nothing but zero-width characters has size 0 and is legitimately skipped
+        // like an empty cell, so zero-width characters are not counted when a table is present
+        let mut a: Vec<char> = s.iter().copied().filter(|c| crate::util::cw(*c) > 0).collect();
+        let mut b: Vec<char> = v.iter().copied().filter(|c| crate::util::cw(*c) > 0).collect();
         a.sort();
         b.sort();
         if a != b {
